@@ -206,7 +206,16 @@ def stage_and_check(run, AH, truth, flags, tracers, chunk, n_chunks, desc):
     core.poison_prime()
     with warnings.catch_warnings():
         warnings.simplefilter('ignore')
-        logging.disable(logging.CRITICAL)
+        if desc.get('log_level') == 'DEBUG':
+            # the package's logger fully enabled (as after setup_logging('debug')): diagnostics must only report
+            lg = logging.getLogger('AbacusHOD')
+            if not any(isinstance(h, logging.NullHandler) for h in lg.handlers):
+                lg.addHandler(logging.NullHandler())
+            lg.propagate = False
+            lg.setLevel(logging.DEBUG)
+            logging.disable(logging.NOTSET)
+        else:
+            logging.disable(logging.CRITICAL)
         # The constructor also builds 100^3 and 100^4-bin mass-function histograms (0.8 GB, ~2 s) that no
         # property is about: for most cases the abacus_hod module sees a numpy whose histogramdd is a
         # stub; every 8th case runs the constructor completely unmodified.
@@ -219,6 +228,7 @@ def stage_and_check(run, AH, truth, flags, tracers, chunk, n_chunks, desc):
                 obj = AH.AbacusHOD(sim_params, HOD, chunk=chunk, n_chunks=n_chunks)
         finally:
             logging.disable(logging.NOTSET)
+            logging.getLogger('AbacusHOD').setLevel(logging.WARNING)
     hd, pd = obj.halo_data, obj.particle_data
     nslab = len(truth['slabs'])
     n_jump = int(np.ceil(nslab / n_chunks))
@@ -285,6 +295,10 @@ def stage_and_check(run, AH, truth, flags, tracers, chunk, n_chunks, desc):
     if len(psrc):
         if not np.array_equal(pd['phid'], psrc['halo_id']):
             return run.violation('staging-particle-order', desc)
+        pi = np.asarray(pd['pinds'])
+        if pi.shape != pd['phid'].shape or (len(pi) and (pi.min() < 0 or pi.max() >= len(hid))):
+            bad = int(np.nonzero((pi < 0) | (pi >= len(hid)))[0][0]) if pi.shape == pd['phid'].shape else -1
+            return run.violation('staging-particle-host-index', dict(problem='host index outside the halo table', particle=bad, index=int(pi[bad]) if bad >= 0 else None, halos=len(hid), **desc))
         if not np.array_equal(hid[pd['pinds']], pd['phid']):
             i = int(np.nonzero(hid[pd['pinds']] != pd['phid'])[0][0])
             return run.violation('staging-particle-host-index', dict(particle=i, phid=int(pd['phid'][i]), hid_at_pinds=int(hid[pd['pinds'][i]]), **desc))
@@ -350,7 +364,7 @@ def check(run):
                 c = 0 if chunk == -1 else chunk
                 if c * n_jump >= nslab:
                     continue
-                desc = dict(case=k, nslab=nslab, order=order, halos_per_slab=truth['halos_per_slab'], chunk=chunk, n_chunks=nch, tracers=list(tracers), scalar_vdev=scalar_vdev, z_mock=zmock, empty_particle_files=nopart, light_cone=lc, short_rank_columns=short_ranks, force_mt=force_mt, **flags)
+                desc = dict(case=k, nslab=nslab, order=order, halos_per_slab=truth['halos_per_slab'], chunk=chunk, n_chunks=nch, tracers=list(tracers), scalar_vdev=scalar_vdev, z_mock=zmock, empty_particle_files=nopart, light_cone=lc, short_rank_columns=short_ranks, force_mt=force_mt, log_level=('DEBUG' if k % 3 == 1 else 'off'), **flags)
                 if k < 3:
                     run.sample(desc)
                 stage_and_check(run, AH, truth, flags, tracers, chunk, nch, desc)
